@@ -199,7 +199,28 @@ def plan_for_request(ctx, fb):
 
 def panic_sites_rule(ctx, fb, T):
     R = 'C26.panic-sites'
-    rev = {(e['fn'], e['what']): e['reason'] for e in T.get('panic_reviewed', [])}
+    # closure ordinals shift when an unrelated closure is added to the parent: reviewed closure sites are identified by
+    # (parent path with ordinals erased, what, the panic message literal) instead
+    norm = lambda p_: re.sub(r'\{closure#\d+\}', '{closure}', p_)
+    rev = {(e['fn'], e['what'], e.get('msg')): e['reason'] for e in T.get('panic_reviewed', [])}
+
+    def message(s):
+        c = s.get('call')
+        if c is None:
+            return None
+        for a in c.args:
+            if a and a[0] == 'k':
+                m = re.search(r'"([^"]*)"', str(a[1]))
+                if m:
+                    return m.group(1)
+        # panic!/panic_fmt: the literal is an argument of the format_args that feeds the call
+        for a in c.args:
+            for o in s['f'].origins(a):
+                if o[0] == 'const':
+                    m = re.search(r'"([^"]*)"', str(o[1]))
+                    if m:
+                        return m.group(1)
+        return None
     n = 0
     nfn = 0
     for p in fb.fn_paths(crate='rten'):
@@ -213,7 +234,17 @@ def panic_sites_rule(ctx, fb, T):
             n += 1
             what = s['detail'].split('::')[-1] if s['call'] else s['kind'].split(':', 1)[1]
             short = p.replace('rten::graph::', '')
-            r = rev.get((p, what))
+            s['f'] = f
+            r = rev.get((p, what, None))
+            if r is None and '{closure#' in p:
+                msg = message(s)
+                r = rev.get((norm(p), what, msg))
+                if r is None:
+                    # message literal not recoverable from the facts (format_args!): accept only if the parent has exactly one
+                    # reviewed closure entry for this kind of site
+                    cands = [v for (k_fn, k_what, k_msg), v in rev.items() if k_fn == norm(p) and k_what == what]
+                    if msg is None and len(cands) == 1:
+                        r = cands[0]
             ok, why = (r is not None), ('reviewed: %s' % r if r else '')
             if not ok and s['kind'].startswith('assert:Overflow') and all(L.is_pure_counter(f.origins(o)) or L.only_calls(f.origins(o), ('re:Enumerate<I> as core::iter::traits::iterator::Iterator>::next$',)) for o in s['ops']):
                 ok, why = True, 'loop counter / enumerate index arithmetic'
